@@ -20,6 +20,8 @@ ASSUMPTIONS = ["poll interleavings / fragmentation of the byte streams are not e
 TRUSTED = ["tokio oneshot delivers at most one value"]
 
 MUTANTS = [
+    {"name": "tick-keeps-response-flag", "file": "src/proxy/backend.rs", "old": "                task_empty = tasks.is_empty();\n                response_received = false;", "new": "                task_empty = tasks.is_empty();\n                if task_empty {\n                    response_received = false;\n                }", "expect": "C08.D7:backend-tick-clears-response-flag"},
+    {"name": "session-idle-timeout-ignores-pending", "file": "src/proxy/session.rs", "old": "                if !data_received && reply_receiver_list.is_empty() {", "new": "                if !data_received && replies.is_empty() {", "expect": "C08.D7:session-idle-timeout"},
     {"name": "fanout-without-count-check", "file": "src/proxy/backend.rs", "old": "                        if v.len() != results.len() {", "new": "                        if v.is_empty() && !results.is_empty() {", "expect": "C08.D6:pairing-after-count-check"},
     {"name": "fanout-replies-reversed", "file": "src/proxy/backend.rs", "old": "                        for (t, r) in v.into_iter().zip(results) {", "new": "                        for (t, r) in v.into_iter().rev().zip(results) {", "expect": "C08.D6:order-kept"},
     {"name": "need_flush-false-without-timer", "file": "src/common/batch.rs", "old": "        let mut flush = false;\n        match Pin::new(&mut self.flush_timer).poll_tick(cx) {", "new": "        if self.curr_wbuf_content_size < flush_size / 2 {\n            return false;\n        }\n        let mut flush = false;\n        match Pin::new(&mut self.flush_timer).poll_tick(cx) {", "expect": "C08.D5:need_flush"},
@@ -42,12 +44,14 @@ def run(ctx):
     ctx.rule("C08.D1", "send-once typestate: set_result / set_resp_result by value in all CmdTask impls; reply channel Option + take(); Drop answers Dropped; not Clone")
     ctx.rule("C08.D2", "FIFO discipline in handle_conn: only FIFO queue operations, one packet per task, popped packet is sent, one task popped per packet read and handled")
     ctx.rule("C08.D3", "failure drains: every error return drains all tasks into handle_conn_err (retry all or answer each); reconnect failure answers carried-over tasks")
+    ctx.rule("C08.D7", "timer bookkeeping: every backend tick that does not time out clears the response flag (so a later stall is detected at the next tick), a tick with requests in flight and no response times out; the session is closed for idleness only when no reply future is pending")
     ctx.rule("C08.D6", "multi-request fan-out: ReqTask::set_result answers every sub-task in every arm (no iteration can pass without set_result), pairs tasks and replies only after their counts were compared, and keeps their order")
     ctx.rule("C08.D5", "buffered requests are eventually flushed: with bytes pending, BatchState::need_flush answers false only after polling the flush timer (a wake-up is registered), and answers true when batching is disabled")
     ctx.rule("C08.D4", "session side: reply futures and replies are queued and consumed in FIFO order only, each handled command contributes one queued future, a popped reply is sent, and the write loop never reports completion without flushing")
     _session(ctx)
     _flush_liveness(ctx)
     _fanout(ctx)
+    _timers(ctx)
     _typestate(ctx)
     _fifo(ctx)
     _drains(ctx)
@@ -483,3 +487,91 @@ def _fanout(ctx):
         ctx.check(guarded, "C08.D6", "pairing-after-count-check", site(b, bb), ok="tasks and replies are zipped only after their counts were compared", bad="tasks and replies are zipped without comparing their counts: zip stops at the shorter list and the remaining requests get no reply")
     bad_ad = [(callee_decl(t) or "").rsplit("::", 1)[-1] for bb, t in b.calls() if (callee_decl(t) or "").startswith("std::iter::Iterator::") and (callee_decl(t) or "").rsplit("::", 1)[-1] in ("rev", "skip", "take", "step_by", "skip_while", "take_while", "filter", "filter_map")]
     ctx.check(not bad_ad, "C08.D6", "order-kept", site(b), ok="sub-tasks and replies are walked front to back, all of them", bad="the fan-out uses %s: replies are paired with other requests than the ones that produced them" % bad_ad)
+
+
+def _bool_capture_writes(b):
+    """{capture field index: [(bb, idx, const value or None)]} for assignments to bool variables captured by reference"""
+    out = {}
+    for bb, i, st in b.assigns():
+        pl = st["place"]
+        pr = pl["p"]
+        if pl["l"] != 1 or not pr:
+            continue
+        fidx = next((e.get("f") for e in pr if isinstance(e, dict) and "f" in e), None)
+        if fidx is None:
+            continue
+        rv = st["rv"]
+        val = rv["a"]["c"].get("int") if rv["k"] == "use" and "c" in rv["a"] and rv["a"]["c"].get("ty") == "bool" else None
+        if rv["k"] == "use" and "c" in rv["a"] and rv["a"]["c"].get("ty") == "bool" or (rv["k"] == "use" and b.locals[(rv["a"].get("cp") or rv["a"].get("mv") or {"l": 0})["l"]]["ty"] == "bool"):
+            out.setdefault(fidx, []).append((bb, i, val))
+    return out
+
+
+def _timers(ctx):
+    from ..lib import branch_conditions
+    F = ctx.F
+    R = "C08.D7"
+    b = _poll_closure(F, "handle_conn")
+    if b is None:
+        ctx.lost(R, "handle_conn", "poll closure not found")
+    else:
+        du = DefUse(b)
+        dom = cfg.dominators(b)
+        ticks = [bb for bb, t in b.calls() if (callee_of(t) or callee_decl(t) or "").endswith("poll_tick")]
+        reads = [bb for bb, t in b.calls() if (callee_decl(t) or "").endswith("Stream::poll_next") and "reader" in _cap_role(F, b, du.slice_operand(t["args"][0]))]
+        tmo = [bb for bb, i, st in agg_sites(b, "BackendError", "Timeout")] + [bb for bb, i, st in b.assigns() if st["rv"]["k"] == "use" and "c" in st["rv"]["a"] and "BackendError::Timeout" in str(st["rv"]["a"]["c"].get("v", ""))]
+        w = _bool_capture_writes(b)
+        # the response flag: a captured bool set to true after a packet was read
+        flag = None
+        for f, ws in w.items():
+            if any(v == 1 and any(r in dom.get(bb, ()) for r in reads) for bb, i, v in ws):
+                flag = f
+        if not (ctx.floor(R, "backend timeout tick", len(ticks), 1) and ctx.floor(R, "backend Timeout error", len(tmo), 1)) or flag is None:
+            if flag is None:
+                ctx.lost(R, "response-flag", "no captured bool that is set when a packet is read")
+        else:
+            resets = {bb for bb, i, v in w[flag] if v == 0}
+            # blocks on the `tick fired` side: dominated by the tick call and controlled by is_ready() == true
+            rets = [x for x in b.return_blocks()]
+            fired = []
+            for x in range(len(b.blocks)):
+                if ticks[0] in dom.get(x, ()) and x != ticks[0]:
+                    for d, discr, val in branch_conditions(b, x, dom):
+                        is_true = (val == 1) or (isinstance(val, tuple) and val[1] == [0])
+                        if is_true and ticks[0] in dom.get(d, ()) and du.slice_operand(discr).has_call("is_ready"):
+                            fired.append(x)
+            entry = min(fired, key=lambda x: len(dom.get(x, ()))) if fired else None
+            if entry is None:
+                ctx.lost(R, "backend-tick-branch", "no branch on poll_tick(..).is_ready()")
+            else:
+                bad = None
+                for r in rets:
+                    pth = cfg.path_between(b, entry, r, avoid=resets | set(tmo))
+                    if pth is not None:
+                        bad = pth
+                ctx.check(bool(resets) and bad is None, R, "backend-tick-clears-response-flag", site(b, entry), ok="every tick that does not time out resets the response flag",
+                          bad="a tick can pass without clearing the `response received` flag: once a response was seen while requests are in flight, a backend that then stalls is never timed out and its requests (and all queued behind them) get no reply")
+    # session idle timeout
+    cands = [x for x in F.all_bodies(bins=False) if x.path.startswith("proxy::session::handle_session::{closure#0}::{closure") and x.kind == "Closure" and calls_to(x, "VecDeque::pop_front")]
+    if not cands:
+        ctx.lost(R, "session", "poll closure not found")
+        return
+    s_ = cands[0]
+    du = DefUse(s_)
+    dom = cfg.dominators(s_)
+    tmo = [bb for bb, i, st in agg_sites(s_, "SessionError", "Timeout")] + [bb for bb, i, st in s_.assigns() if st["rv"]["k"] == "use" and "c" in st["rv"]["a"] and "SessionError::Timeout" in str(st["rv"]["a"]["c"].get("v", ""))]
+    if not ctx.floor(R, "session idle Timeout error", len(tmo), 1):
+        return
+    ok = False
+    for d, discr, val in branch_conditions(s_, tmo[0], dom):
+        is_true = (val == 1) or (isinstance(val, tuple) and val[1] == [0])
+        if not is_true:
+            continue
+        for c_, bbs in du.slice_operand(discr).calls.items():
+            if c_.endswith("VecDeque::is_empty"):
+                for bb_ in bbs:
+                    t_ = s_.blocks[bb_].term
+                    if "reply_receiver_list" in _cap_role(F, s_, du.slice_operand(t_["args"][0], deep=False)):
+                        ok = True
+    ctx.check(ok, R, "session-idle-timeout-needs-no-pending-request", site(s_, tmo[0]), ok="the idle timeout fires only when the queue of reply futures is empty",
+              bad="the session can be closed for idleness while a request is still waiting for its reply (the test does not look at the queue of pending reply futures): the client sees EOF instead of the reply")
